@@ -54,6 +54,15 @@ inductive W where
   | lfr (r : Nat)            -- grandpa/latest_finalised_round
   | epoch                    -- epoch/current
   | skipto                   -- skipto
+  | ned (e h : Nat)          -- epoch/nextepochdata<epoch>:<hash>   (announced NextEpochData)
+  | ncd (e h : Nat)          -- epoch/nextconfigdata<epoch>:<hash>  (announced NextConfigData)
+  | delNed (e h : Nat)       -- deletion of a nextepochdata key (only in the batches of the finalisation)
+  | delNcd (e h : Nat)       -- deletion of a nextconfigdata key
+  | einfo (e : Nat)          -- epoch/epochinfo+epoch   (finalised epoch data)
+  | cinfo (e : Nat)          -- epoch/configinfo+epoch  (finalised config data)
+  | jcp (h : Nat)            -- block/jcp+hash          (justification)
+  | pv (r s : Nat)           -- grandpa/pv+round+setID  (prevotes)
+  | pc (r s : Nat)           -- grandpa/pc+round+setID  (precommits)
 deriving DecidableEq, Repr
 
 inductive Entry where
@@ -76,6 +85,13 @@ structure DB where
   lfr : Option Nat := none
   epoch : Bool := false
   skipto : Bool := false
+  ned : Nat → Nat → Bool := fun _ _ => false
+  ncd : Nat → Nat → Bool := fun _ _ => false
+  einfo : Nat → Bool := fun _ => false
+  cinfo : Nat → Bool := fun _ => false
+  jcp : Nat → Bool := fun _ => false
+  pv : Nat → Nat → Bool := fun _ _ => false
+  pc : Nat → Nat → Bool := fun _ _ => false
 
 def DB.write (db : DB) : W → DB
   | .hdr h => { db with hdr := fun i => if i = h.id then some h else db.hdr i }
@@ -92,6 +108,15 @@ def DB.write (db : DB) : W → DB
   | .lfr r => { db with lfr := some r }
   | .epoch => { db with epoch := true }
   | .skipto => { db with skipto := true }
+  | .ned e h => { db with ned := fun e' h' => if e' = e ∧ h' = h then true else db.ned e' h' }
+  | .ncd e h => { db with ncd := fun e' h' => if e' = e ∧ h' = h then true else db.ncd e' h' }
+  | .delNed e h => { db with ned := fun e' h' => if e' = e ∧ h' = h then false else db.ned e' h' }
+  | .delNcd e h => { db with ncd := fun e' h' => if e' = e ∧ h' = h then false else db.ncd e' h' }
+  | .einfo e => { db with einfo := fun i => if i = e then true else db.einfo i }
+  | .cinfo e => { db with cinfo := fun i => if i = e then true else db.cinfo i }
+  | .jcp h => { db with jcp := fun i => if i = h then true else db.jcp i }
+  | .pv r s => { db with pv := fun r' s' => if r' = r ∧ s' = s then true else db.pv r' s' }
+  | .pc r s => { db with pc := fun r' s' => if r' = r ∧ s' = s then true else db.pc r' s' }
 
 def DB.apply (db : DB) : Entry → DB
   | .put w => db.write w
@@ -164,6 +189,11 @@ structure Node where
   sched : List PNode := []
   /-- every block the scenario has named so far (the harness's header table) -/
   defs : List Hdr
+  /-- EpochState.nextEpochData / nextConfigData: (epoch, announcing block) -/
+  memNed : List (Nat × Nat) := []
+  memNcd : List (Nat × Nat) := []
+  /-- the finalisation handler had two or more epochs to delete: their order is Go's map order -/
+  nondet : Bool := false
 
 def genesisId : Nat := 0
 def genesisHdr : Hdr := ⟨0, 1000, 0, 0⟩
@@ -490,11 +520,86 @@ def applyScheduled (cfg : Cfg) (n : Node) (b : Hdr) : Node × Bool :=
         let n := { n with sched := p.kids }
         startNext cfg n p.change.tag b.number
 
+/-! #### EpochState (dot/state/epoch.go) -/
+
+/-- `GetEpochForBlock` when the slot of a block is 1000 + its number and the epoch length is 2 slots (the
+    harness's headers): blocks 0 and 1 are in epoch 0, block n ≥ 2 in epoch (slot n − slot 1) / 2.  The
+    first-slot lookup (`fsn` key, else the block-1 ancestor in the tree) cannot fail for a block that is in the
+    block tree or finalised. -/
+def epochOf (number : Nat) : Nat := if number ≤ 1 then 0 else (number - 1) / 2
+
+def insertSorted (x : Nat) : List Nat → List Nat
+  | [] => [x]
+  | y :: ys => if x < y then x :: y :: ys else if x = y then y :: ys else y :: insertSorted x ys
+
+/-- ascending, without duplicates -/
+def sortDedup (l : List Nat) : List Nat := l.foldr insertSorted []
+
+/-- `HandleBABEDigest` for NextEpochData / NextConfigDataV1 announced by block `b`: memory map, then one put -/
+def handleNextEpoch (n : Node) (b : Hdr) : Node :=
+  let e := epochOf b.number + 1
+  let n := { n with memNed := if n.memNed.contains (e, b.id) then n.memNed else n.memNed ++ [(e, b.id)] }
+  n.put (.ned e b.id)
+
+def handleNextConfig (n : Node) (b : Hdr) : Node :=
+  let e := epochOf b.number + 1
+  let n := { n with memNcd := if n.memNcd.contains (e, b.id) then n.memNcd else n.memNcd ++ [(e, b.id)] }
+  n.put (.ncd e b.id)
+
+/-- the deletion loop of FinalizeBABENext*: one batch per epoch (ascending here; Go's map order in the code,
+    see `Node.nondet`), each batch deletes the keys of that epoch -/
+def deleteLoop (mk : Nat → Nat → W) (mem : List (Nat × Nat)) (n : Node) : List Nat → Node
+  | [] => n
+  | e :: es =>
+    let hs := sortDedup ((mem.filter (fun p => p.1 = e)).map (·.2))
+    deleteLoop mk mem (n.emit (.batch (hs.map (mk e)))) es
+
+/-- `FinalizeBABENextEpochData(finalizedHeader)`; Bool = no error -/
+def finalizeNed (n : Node) (b : Hdr) : Node × Bool :=
+  if b.number = 0 then (n, true)
+  else
+    let ne := epochOf b.number + 1
+    if n.db.einfo ne then (n, true)
+    else
+      let cands := n.memNed.filter (fun p => p.1 = ne)
+      if cands.isEmpty then (n, false)                                   -- ErrEpochNotInMemory
+      else if !(cands.any (fun p => (n.db.hdr p.2).isSome)) then (n, false)  -- errHashNotPersisted
+      else
+        let n := n.put (.einfo ne)
+        let epochs := sortDedup ((n.memNed.filter (fun p => p.1 ≤ ne)).map (·.1))
+        let n := deleteLoop .delNed n.memNed n epochs
+        ({ n with memNed := n.memNed.filter (fun p => ¬ p.1 ≤ ne) }, true)
+
+/-- `FinalizeBABENextConfigData(finalizedHeader)` (after the repair of its "already defined" check, which
+    now reads the configinfo key); Bool = no error -/
+def finalizeNcd (n : Node) (b : Hdr) : Node × Bool :=
+  if b.number = 0 then (n, true)
+  else
+    let ne := epochOf b.number + 1
+    if n.db.cinfo ne then (n, true)
+    else
+      let cands := n.memNcd.filter (fun p => p.1 = ne)
+      if cands.isEmpty then (n, true)                                    -- not every epoch has config data
+      else if !(cands.any (fun p => (n.db.hdr p.2).isSome)) then (n, false)
+      else
+        let n := n.put (.cinfo ne)
+        let epochs := sortDedup ((n.memNcd.filter (fun p => p.1 ≤ ne)).map (·.1))
+        let n := deleteLoop .delNcd n.memNcd n epochs
+        ({ n with memNcd := n.memNcd.filter (fun p => ¬ p.1 ≤ ne) }, true)
+
+/-- two or more epochs ≤ nextEpoch pending in a next-epoch map -/
+def pendingMany (mem : List (Nat × Nat)) (ne : Nat) : Bool :=
+  decide ((sortDedup ((mem.filter (fun p => p.1 ≤ ne)).map (·.1))).length > 1)
+
 /-! ### scenario operations (what the harness re-enacts) -/
 
 inductive Op where
-  | imp (id parent k v : Nat) (chg : Option ChangeSpec)
+  | imp (id parent k v : Nat) (chg : Option ChangeSpec) (ne nc : Bool)
   | fin (id r s : Nat)
+  | gfin (id r s : Nat)
+  | just (id : Nat)
+  | pv (r s : Nat)
+  | pc (r s : Nat)
   | lr (r : Nat)
 deriving DecidableEq, Repr
 
@@ -518,8 +623,8 @@ def define (n : Node) (id parent k v : Nat) : Option (Hdr × Nat × Bool) :=
 
 /-- dot/core `handleBlock` as the harness re-enacts it: TrieState(parent root), StoreTrie, AddBlock,
     HandleGRANDPADigest, ApplyForcedChanges -/
-def doImport (cfg : Cfg) (n : Node) (b : Hdr) (parentRoot : Nat) (dirty : Bool) (chg : Option ChangeSpec) :
-    Node × String :=
+def doImport (cfg : Cfg) (n : Node) (b : Hdr) (parentRoot : Nat) (dirty : Bool) (chg : Option ChangeSpec)
+    (ne nc : Bool) : Node × String :=
   if n.db.node parentRoot = false then (n, "e-state")
   else
     let n := n.emit (.batch (if dirty then [.node b.root] else []))
@@ -533,32 +638,64 @@ def doImport (cfg : Cfg) (n : Node) (b : Hdr) (parentRoot : Nat) (dirty : Bool) 
         | none => (n, true)
         | some spec => handleDigest n b spec
       if !okDigest then (n, "e-digest")
-      else match applyForced cfg n b with
+      else
+        let n := if ne then handleNextEpoch n b else n
+        let n := if nc then handleNextConfig n b else n
+        match applyForced cfg n b with
         | (n, false) => (n, "e-forced")
         | (n, true) => (n, "ok")
 
-def doFin (cfg : Cfg) (n : Node) (id r s : Nat) : Node × String :=
+/-- dot/digest `handleBlockFinalisation` for the finalised header `b`: FinalizeBABENextEpochData,
+    FinalizeBABENextConfigData, ApplyScheduledChanges (an error of one is logged, the next still runs) -/
+def finHandlers (cfg : Cfg) (n : Node) (b : Hdr) : Node × String :=
+  let ne := epochOf b.number + 1
+  let n0 : Node := if b.number ≠ 0 ∧ (pendingMany n.memNed ne ∨ pendingMany n.memNcd ne)
+    then { n with nondet := true } else n
+  let r1 := finalizeNed n0 b
+  let r2 := finalizeNcd r1.1 b
+  let r3 := applyScheduled cfg r2.1 b
+  (r3.1, "ok" ++ (if r1.2 then "" else "+e-ned") ++ (if r2.2 then "" else "+e-ncd") ++
+    (if r3.2 then "" else "+e-sched"))
+
+/-- SetFinalisedHash, then — on the finalisation notification, sent for round > 0 only — the handlers;
+    Bool = SetFinalisedHash succeeded -/
+def doFin (cfg : Cfg) (n : Node) (id r s : Nat) : Node × Bool × String :=
   match setFinalisedHash n id r s with
-  | (n, false) => (n, "e-fin")
+  | (n, false) => (n, false, "e-fin")
   | (n, true) =>
     if r > 0 then
       match n.defs.find? (fun b => b.id = id) with
-      | none => (n, "ok")
-      | some b =>
-        match applyScheduled cfg n b with
-        | (n, false) => (n, "ok+e-sched")
-        | (n, true) => (n, "ok")
-    else (n, "ok")
+      | none => (n, true, "ok")
+      | some b => ((finHandlers cfg n b).1, true, (finHandlers cfg n b).2)
+    else (n, true, "ok")
+
+/-- lib/grandpa `Service.finalise` of an own round: SetJustification, SetPrevotes, SetPrecommits, GetHeader,
+    SetFinalisedHash (+ handlers), SetLatestRound -/
+def doGfin (cfg : Cfg) (n : Node) (id r s : Nat) : Node × String :=
+  let n := n.put (.jcp id)
+  let n := n.put (.pv r s)
+  let n := n.put (.pc r s)
+  match n.getHeader id with
+  | none => (n, "e-hdr")
+  | some _ =>
+    match doFin cfg n id r s with
+    | (n, false, res) => (n, res)
+    | (n, true, res) => (n.put (.lfr r), res)
 
 /-- one operation; `none` = malformed line -/
 def step? (cfg : Cfg) (n : Node) : Op → Option (Node × String)
-  | .imp id parent k v chg =>
+  | .imp id parent k v chg ne nc =>
     match define n id parent k v with
     | none => none
     | some (b, parentRoot, dirty) =>
       let n := if n.defs.any (fun x => x.id = id) then n else { n with defs := n.defs ++ [b] }
-      some (doImport cfg n b parentRoot dirty chg)
-  | .fin id r s => some (doFin cfg n id r s)
+      some (doImport cfg n b parentRoot dirty chg ne nc)
+  | .fin id r s => match doFin cfg n id r s with
+    | (n, _, res) => some (n, res)
+  | .gfin id r s => some (doGfin cfg n id r s)
+  | .just id => some (n.put (.jcp id), "ok")
+  | .pv r s => some (n.put (.pv r s), "ok")
+  | .pc r s => some (n.put (.pc r s), "ok")
   | .lr r => some (n.put (.lfr r), "ok")
 
 /-- total version used by the theorems: a malformed operation changes nothing -/
